@@ -72,5 +72,12 @@ pub async fn resolve_simple_field_value<T: OutputType + ?Sized>(
     )
     .await
     .map(Option::Some)
-    .map_err(|err| ctx.set_error_path(err))
+    .map_err(|err| {
+        // an error raised by a field below this one already carries its own path
+        if err.path.is_empty() {
+            ctx.set_error_path(err)
+        } else {
+            err
+        }
+    })
 }
